@@ -2033,6 +2033,8 @@ using country = f8String;
 using currency = f8String;
 using Exchange = f8String;
 using Language = f8String;
+using Tenor = f8String;
+using pattern = f8String;
 using XMLData = f8String;
 using data = f8String;
 
